@@ -11,6 +11,7 @@ import sys, os, json, hashlib, itertools, subprocess
 import numpy as np
 from mc import harness, engine, randsrc
 
+NO_CONFIRM_KINDS = ("fixed-program:",)      # process / repetition dependence is observed across interpreters, not per case
 LETTERS = ["rand", "randn", "normal", "randint", "uniform_", "normal_", "xavier_uniform_", "xavier_normal_", "kaiming_uniform_",
            "kaiming_normal_", "Linear", "Conv1d", "Conv2d", "BatchNorm", "Dropout", "split", "train_step"]
 SEEDS = (0, 1, 12345)
@@ -181,7 +182,7 @@ def run(tier, seed):
         diff = [k for k in base if t.get(k) != base[k]]
         if diff:
             k = diff[0]
-            kind = "fixed-program:depends-on-process" if k == "fixed" else f"{k.split('@')[0].split('|')[-1]}:differs-across-processes"
+            kind = "fixed-program:depends-on-process" if k == "fixed" else f"fixed-program:letter-{k.split('@')[0].split('|')[-1]}-differs-across-processes"
             viols.append({"kind": kind, "detail": f"{len(diff)} of {len(base)} digests differ in a fresh interpreter (PYTHONHASHSEED={hs}, junk allocations={junk}); first: {k}",
                           "case": {"kind": "process", "prog": k, "hashseed": hs, "junk": junk}})
     if len(set(base["fixed"])) != 1:
